@@ -198,6 +198,17 @@ theorem stepCore_inv {sys : Sys K V Q} (hs : SysInv E sys) (op : Op K V Q) (hop 
   | map reg mop =>
     have hmop : mop.safeApi = true := hop
     cases mop with
+    | serde dst =>
+      obtain ⟨l, hr, _⟩ := hs.1 reg
+      simp only [stepCore, serializeR_ok hr]
+      have h := assignMap_inv E (sys := { sys with w := sys.w }) hs dst (sys.maps dst).cap
+        (build := deserializeInto E (.start (some l.length) :: l.map (fun p => Tok.entry p.1 p.2) ++ [.fin]))
+        (fun w => by
+          unfold deserializeInto
+          exact Sat.mono (scratch_sat E (opInv_visitLoop E _) (s := ⟨Raw.new _, w⟩) (Inv.new E _))
+            (fun _ _ h => h.1) (fun _ _ h => h))
+      revert h; generalize assignMap E _ dst _ _ = r; intro h
+      cases r <;> exact h
     | clone_to dst =>
       have h := assignMap_inv E hs dst (sys.maps reg).cap (build := cloneInto E (sys.maps reg)) (fun w =>
         Sat.mono (cloneInto_inv E (hs.1 reg) w) (fun _ _ h => h.1) (fun _ _ h => h))
@@ -215,6 +226,18 @@ theorem stepCore_inv {sys : Sys K V Q} (hs : SysInv E sys) (op : Op K V Q) (hop 
     | _ => exact runOnMap_inv E (stepMapOp_inv E R sys.maps hs.1 _ hmop) hs reg
   | set reg sop =>
     cases sop with
+    | serde dst =>
+      obtain ⟨l, hr, _⟩ := hs.2 reg
+      simp only [stepCore, serializeR_ok hr]
+      have hs' : SysInv E { sys with w := sys.w.mergeUnit sys.w.toUnit } := hs
+      have h := assignSet_inv E hs' dst (sys.sets dst).cap
+        (build := deserializeInto E.toUnit (.start (some l.length) :: l.map (fun p => Tok.entry p.1 p.2) ++ [.fin]))
+        (fun w => by
+          unfold deserializeInto
+          exact Sat.mono (scratch_sat E.toUnit (opInv_visitLoop E.toUnit _) (s := ⟨Raw.new _, w⟩) (Inv.new _ _))
+            (fun _ _ h => h.1) (fun _ _ h => h))
+      revert h; generalize assignSet E _ dst _ _ = r; intro h
+      cases r <;> exact h
     | clone_to dst =>
       have h := assignSet_inv E hs dst (sys.sets reg).cap (build := cloneInto E.toUnit (sys.sets reg)) (fun w =>
         Sat.mono (cloneInto_inv E.toUnit (hs.2 reg) w) (fun _ _ h => h.1) (fun _ _ h => h))
